@@ -63,9 +63,10 @@ Data == << Series(<< <<"__name__","m">>, <<"a","x">>, <<"b","1">>, <<"le","1">> 
            Series(<< <<"__name__","n">>, <<"a","y">>, <<"b","1">>, <<"le","1">> >>, [i \in 1..12 |-> Smp(i - 1, "f", 5)]) >>
 
 VARIABLE g
-Init == g \in [c : 1..Len(Constructs), p : 1..Len(Positions), win : {"instant", "range"}]
+\* windows: instant, 5-step range, and a range query of a single step (start = end: still a matrix)
+Init == g \in [c : 1..Len(Constructs), p : 1..Len(Positions), win : {"instant", "range", "one"}]
 Next == UNCHANGED g
 TextOf(x) == InPos(Constructs[x.c], Positions[x.p])
-ScnOf(x) == Scn("fb", "C08", TickMs, Data, <<>>, 4, IF x.win = "instant" THEN 4 ELSE 8, IF x.win = "instant" THEN 0 ELSE 1, 2, 0) @@ [q |-> TextOf(x)]
-EmitFb == IF TextOf(g) # "" /\ (g.c * 7 + g.p * 3 + (IF g.win = "instant" THEN 0 ELSE 1)) % Mod = Seed % Mod THEN Emit(ScnOf(g)) ELSE TRUE
+ScnOf(x) == Scn("fb", "C08", TickMs, Data, <<>>, 4, IF x.win = "range" THEN 8 ELSE 4, IF x.win = "instant" THEN 0 ELSE 1, 2, 0) @@ [q |-> TextOf(x)]
+EmitFb == IF TextOf(g) # "" /\ (g.c * 7 + g.p * 3 + (IF g.win = "instant" THEN 0 ELSE IF g.win = "range" THEN 1 ELSE 2)) % Mod = Seed % Mod THEN Emit(ScnOf(g)) ELSE TRUE
 =============================================================================
